@@ -88,6 +88,23 @@ impl Engine for WfEngine {
         }
         vec!["cmp wf mod([],[],[])".into()]
     }
+    /// hand-written programs whose encodings contain opcode-valued operand bytes, suffix-related
+    /// string literals and empty bodies, compiled by the real compiler when the corpus is built
+    fn corpus(&self) -> Vec<Vec<String>> {
+        let srcs = [
+            // conditions ending in an operand byte that equals an opcode (0x1B = Not, 0x2E)
+            "mod([],[fn($6d61696e,[],[iftrue(int(#1945555039024054272),setglobal($67,int(#1))),while(int(#3314649325744685056),abort),ifelse(less(int(#1),int(#1945555039024054272)),setglobal($67,int(#2)),setglobal($67,int(#3)))])],[])",
+            // string literals that are suffixes / prefixes of the previous one, empty strings, non-ASCII
+            "mod([],[fn($6d61696e,[],[setglobal($61,str($666f6f626172)),setglobal($62,str($626172)),setglobal($63,str($)),setglobal($64,str($636166c3a9)),setglobal($65,str($c3a9)),setglobal($66,str($626172)),setglobal($68,readvar($636667)),setglobal($69,str($666f6f))])],[])",
+            // empty bodies, a loop as the last card of a function, nested closures capturing 2+ variables
+            "mod([],[fn($6d61696e,[],[setvar($61,int(#1)),setvar($62,int(#2)),setvar($63,int(#3)),setglobal($67,closure([],[return(closure([],[return(add(readvar($63),add(readvar($61),readvar($62))))]))])),repeat(?,int(#0),composite($5f,[]))]),fn($66,[],[while(int(#0),composite($5f,[]))])],[])",
+        ];
+        srcs.iter()
+            .filter_map(|t| parse_module(t))
+            .filter_map(|m| compile(m, None).ok())
+            .map(|p| vec![format!("cmp wfprog {}", show_program(&p))])
+            .collect()
+    }
     fn run_impl(&self, ops: &[String], out: &mut Vec<String>) {
         CmpEngine.run_impl(ops, out)
     }
